@@ -8,7 +8,7 @@ mod term;
 use engine::*;
 
 fn registry() -> Vec<Box<dyn Prop>> {
-    vec![Box::new(props::cong::Cong { sound: true }), Box::new(props::cong::Cong { sound: false }), Box::new(props::inv::Inv)]
+    vec![Box::new(props::cong::Cong { sound: true }), Box::new(props::cong::Cong { sound: false }), Box::new(props::inv::Inv), Box::new(props::group::GroupProp), Box::new(props::slotmap::SlotMapProp), Box::new(props::slots::SlotsProp)]
 }
 
 fn find_prop(id: &str) -> Box<dyn Prop> {
@@ -37,6 +37,28 @@ fn main() {
             exec1_main(&*prop, &args[3..])
         }
         "replay" => replay_main(&|id| find_prop(id), &args[2]),
+        "hist" => {
+            // debug helper: mc hist "union (f $0 $1) = (f $1 $0) ; add (u (f $0 $1))"
+            use slotted_egraphs::*;
+            let ops: Vec<hist::Op> = args[2].split(';').map(|s| hist::Op::parse(s.trim()).expect("parse op")).collect();
+            let mut eg = EGraph::<sym::Sym>::default();
+            let mut rec = Vec::new();
+            for o in &ops {
+                println!(">> {}", o.show());
+                hist::apply_op(&mut eg, o, sym::Naming::Numeric, &mut rec);
+            }
+            eg.dump();
+            eg.check();
+            for (t, a) in &rec {
+                println!("{} -> {:?} find {:?}", t.to_sexp(), a, eg.find_applied_id(a));
+            }
+            let ex = Extractor::<sym::Sym, AstSize>::new(&eg, AstSize);
+            for i in eg.ids() {
+                let a = eg.mk_identity_applied_id(i);
+                println!("extract {:?}: {}", a, ex.extract(&a, &eg));
+            }
+            0
+        }
         "segments" => {
             let prop = find_prop(&args[2]);
             let tier = Tier::parse(&args[3]);
